@@ -9,7 +9,8 @@ CONSTANTS
   WM = 8
   ConstructSlots <- Slots2
   Unbounded = TRUE
+  ViewIds <- Views1
   Ops <- AllOps
-INVARIANTS TypeOK Refines NoAlias NoUseAfterFree NoDoubleFree NoLeak ConfigKept RoundTrip
+INVARIANTS TypeOK Refines NoAlias NoUseAfterFree NoDoubleFree NoLeak ConfigKept RoundTrip ViewsValid ViewsSeeOwner
 PROPERTIES SourceUnchanged
 CHECK_DEADLOCK FALSE
